@@ -111,6 +111,30 @@ def check_no_double_record(world, when):
                        {'app': world.tmpl[a], 'servers': sorted(where)})
 
 
+def zk_requirements(tree, appname):
+    """(partition, required traits) of an instance resolved from the stored
+    records alone: its manifest and the first /allocations assignment whose
+    pattern matches its name."""
+    import fnmatch
+    man = tree.find(z.path.scheduled(appname))
+    if man is None or not man.data:
+        return None
+    man = json.loads(man.data.decode())
+    need = set(man.get('traits', []))
+    part = '_default'
+    allocs = json.loads(tree.find(z.ALLOCATIONS).data.decode() or '[]')
+    hit = None
+    for obj in allocs:
+        for asg in obj.get('assignments', []):
+            if hit is None and fnmatch.fnmatch(
+                    appname, asg['pattern'] + '[#]' + '[0-9]' * 10):
+                hit = obj
+    if hit is not None:
+        need |= set(hit.get('traits', []))
+        part = hit.get('partition') or '_default'
+    return part, need
+
+
 def check_c11(world):
     """Start a fresh master on a copy of the stored state, load_model() only,
     compare with what is recorded under healthy servers."""
@@ -138,6 +162,16 @@ def check_c11(world):
         nsrv = m2.servers.get(s)
         if osrv is None or nsrv is None or not osrv.is_same(nsrv):
             continue
+        # ... and the partition and traits this instance needs NOW (its
+        # assignment may have changed since it was placed)
+        req = zk_requirements(tree, a)
+        rec = json.loads(srv_records[s].decode()) if srv_records.get(s) \
+            else {}
+        if req is not None:
+            if (rec.get('partition') or '_default') != req[0] or \
+                    req[1] - set(rec.get('traits', [])):
+                world.stats['c11_records_on_unsuitable_server'] += 1
+                continue
         # the set recorded on s must still fit s together (capacity offered)
         healthy_records += 1
         app = m2.cell.apps.get(a)
